@@ -17,6 +17,11 @@
 (*              is strict (a point on the boundary may go either way).      *)
 (*  Membership  arbitrary real points of all three cones against the        *)
 (*              observer's definition, when the observer's margin is clear. *)
+(*  ExactBoundary points that lie on the boundary of K or K* exactly in      *)
+(*              floating point ((0, a, a) and (-a, -a, a) for the exponential *)
+(*              cone, all-ones / exponent points with a unit last block for  *)
+(*              the power cones: every intermediate of the predicate is      *)
+(*              exact there): the interior tests must reject them.           *)
 (*  NonsymCone  one interior pair (s, z) with directions (ds, dz): every    *)
 (*              identity of Required(cone) below must hold.  Each identity  *)
 (*              reaches TLC as a pair <<error, tolerance>>; the reference   *)
@@ -75,6 +80,7 @@ Common == {"grad_is_derivative",          \* stored gradient = d/dz of the dual 
            "hess_z_is_minus_grad",        \* H(z) z = -g(z)
            "primal_grad_is_derivative",   \* gradient_primal = d/ds of the primal barrier
            "conjugate_map",               \* g*(-g(s)) = -s
+           "primal_barrier_is_conjugate", \* f(s) + f*(-g(s)) + nu = 0  (the reported value of the primal barrier)
            "scaling_symmetric", "scaling_positive_definite",
            "scaling_secant_or_fallback",  \* Hs z = s and Hs z~ = s~, or Hs = mu H
            "start_is_central",            \* unit_initialization: s = -g*(z)
@@ -99,6 +105,7 @@ NonsymOK(e) ==
 EventOK(e) == CASE e.ev = "NonsymCone" -> NonsymOK(e)
                 [] e.ev = "Membership" -> MembershipOK(e)
                 [] e.ev = "Lattice"    -> LatticeOK(e)
+                [] e.ev = "ExactBoundary" -> ~e.code_says_interior   \* a point exactly on the boundary is not interior
                 [] OTHER -> FALSE        \* (a panic inside the battery)
 
 VARIABLES l, bad
